@@ -45,7 +45,9 @@ func ColName(i int) string   { return fmt.Sprintf("c%d", i) }
 var fancyCols = []string{"external_ids", "mac", "qos_uuid", "other_config", "ipv6_ra_configs", "name", "type", "bfd_status", "up", "nb_cfg", "tcp_port", "datapath_id", "options", "vlan_mode", "_private"}
 var fancyTables = []string{"Logical_Switch", "ACL", "NB_Global", "Bridge", "QoS", "DHCP_Options", "Port_Binding", "bfd", "Flow_Sample_Collector_Set", "SSL"}
 
-var enumStrings = []string{"red", "green", "blue", "802.1q", "up-down", "Mixed_Case", "a b", "say \"hi\"", "back\\slash", "dot1q-tunnel"}
+var enumStrings = []string{"red", "green", "blue", "802.1q", "up-down", "Mixed_Case", "a b", "say \"hi\"", "back\\slash", "dot1q-tunnel",
+	// symbol-class, control and combining characters (neither letter, digit, punctuation nor space)
+	"rx+tx", "lt<gt", "key=val", "p|q", "~tilde", "c^d", "$var", "tab\tsep", "e\u0301acute", "`tick`"}
 
 // GenSchema draws a schema.
 func GenSchema(t *rapid.T, p Profile) Schema {
